@@ -69,3 +69,41 @@ package semver
 
 //@ func (*VersionRange).String
 //@   ensures text: result == arg0.original   [C18]
+
+// ---- range text to constraints (C02): an operator directly before a valid version
+
+//@ func parseSingleConstraint
+//@   ensures one: result1 == nil ==> len(result0) == 1 && result0[0] != nil
+//@   ensures star: strings.TrimSpace(c) == "*" ==> result1 == nil && result0[0].operator == "*"   [C02]
+//@   ensures bound: strings.TrimSpace(c) != "*" && result1 == nil ==> result0[0].version != nil
+//@   ensures op>=: strings.TrimSpace(c) != "*" && strings.HasPrefix(strings.TrimSpace(c), ">=") && result1 == nil ==> result0[0].operator == ">=" && result0[0].version == theEcosystem().NewVersion(strings.TrimSpace(strings.TrimSpace(c)[2:])).0   [C02]
+//@   ensures accepts>=: strings.TrimSpace(c) != "*" && strings.HasPrefix(strings.TrimSpace(c), ">=") && strings.TrimSpace(strings.TrimSpace(c)[2:]) != "" && theEcosystem().NewVersion(strings.TrimSpace(strings.TrimSpace(c)[2:])).1 == nil ==> result1 == nil   [C02]
+//@   ensures op<=: strings.TrimSpace(c) != "*" && strings.HasPrefix(strings.TrimSpace(c), "<=") && result1 == nil ==> result0[0].operator == "<=" && result0[0].version == theEcosystem().NewVersion(strings.TrimSpace(strings.TrimSpace(c)[2:])).0   [C02]
+//@   ensures accepts<=: strings.TrimSpace(c) != "*" && strings.HasPrefix(strings.TrimSpace(c), "<=") && strings.TrimSpace(strings.TrimSpace(c)[2:]) != "" && theEcosystem().NewVersion(strings.TrimSpace(strings.TrimSpace(c)[2:])).1 == nil ==> result1 == nil   [C02]
+//@   ensures op!=: strings.TrimSpace(c) != "*" && strings.HasPrefix(strings.TrimSpace(c), "!=") && result1 == nil ==> result0[0].operator == "!=" && result0[0].version == theEcosystem().NewVersion(strings.TrimSpace(strings.TrimSpace(c)[2:])).0   [C02]
+//@   ensures accepts!=: strings.TrimSpace(c) != "*" && strings.HasPrefix(strings.TrimSpace(c), "!=") && strings.TrimSpace(strings.TrimSpace(c)[2:]) != "" && theEcosystem().NewVersion(strings.TrimSpace(strings.TrimSpace(c)[2:])).1 == nil ==> result1 == nil   [C02]
+//@   ensures op>: strings.TrimSpace(c) != "*" && strings.HasPrefix(strings.TrimSpace(c), ">") && !strings.HasPrefix(strings.TrimSpace(c), ">=") && result1 == nil ==> result0[0].operator == ">" && result0[0].version == theEcosystem().NewVersion(strings.TrimSpace(strings.TrimSpace(c)[1:])).0   [C02]
+//@   ensures accepts>: strings.TrimSpace(c) != "*" && strings.HasPrefix(strings.TrimSpace(c), ">") && !strings.HasPrefix(strings.TrimSpace(c), ">=") && strings.TrimSpace(strings.TrimSpace(c)[1:]) != "" && theEcosystem().NewVersion(strings.TrimSpace(strings.TrimSpace(c)[1:])).1 == nil ==> result1 == nil   [C02]
+//@   ensures op<: strings.TrimSpace(c) != "*" && strings.HasPrefix(strings.TrimSpace(c), "<") && !strings.HasPrefix(strings.TrimSpace(c), "<=") && result1 == nil ==> result0[0].operator == "<" && result0[0].version == theEcosystem().NewVersion(strings.TrimSpace(strings.TrimSpace(c)[1:])).0   [C02]
+//@   ensures accepts<: strings.TrimSpace(c) != "*" && strings.HasPrefix(strings.TrimSpace(c), "<") && !strings.HasPrefix(strings.TrimSpace(c), "<=") && strings.TrimSpace(strings.TrimSpace(c)[1:]) != "" && theEcosystem().NewVersion(strings.TrimSpace(strings.TrimSpace(c)[1:])).1 == nil ==> result1 == nil   [C02]
+//@   ensures op=: strings.TrimSpace(c) != "*" && strings.HasPrefix(strings.TrimSpace(c), "=") && result1 == nil ==> result0[0].operator == "=" && result0[0].version == theEcosystem().NewVersion(strings.TrimSpace(strings.TrimSpace(c)[1:])).0   [C02]
+//@   ensures accepts=: strings.TrimSpace(c) != "*" && strings.HasPrefix(strings.TrimSpace(c), "=") && strings.TrimSpace(strings.TrimSpace(c)[1:]) != "" && theEcosystem().NewVersion(strings.TrimSpace(strings.TrimSpace(c)[1:])).1 == nil ==> result1 == nil   [C02]
+
+//@ func parseSpaceSeparatedConstraints
+//@   loop 1 invariant len(constraints) == rangeindex + 1 && (forall j int :: 0 <= j && j <= rangeindex ==> constraints[j] == parseSingleConstraint(parts[j]).0[0])
+//@   ensures and-list: result1 == nil ==> len(result0) == len(strings.Fields(rangeStr)) && (forall j int :: 0 <= j && j < len(result0) ==> result0[j] == parseSingleConstraint(strings.Fields(rangeStr)[j]).0[0])   [C02]
+
+//@ func parseCommaSeparatedConstraints
+//@   loop 1 invariant (forall j int :: 0 <= j && j <= rangeindex ==> strings.TrimSpace(parts[j]) != "") ==> len(constraints) == rangeindex + 1 && (forall j int :: 0 <= j && j <= rangeindex ==> constraints[j] == parseSingleConstraint(strings.TrimSpace(parts[j])).0[0])
+//@   ensures and-list: (forall j int :: 0 <= j && j < len(strings.Split(rangeStr, ",")) ==> strings.TrimSpace(strings.Split(rangeStr, ",")[j]) != "") && result1 == nil ==> len(result0) == len(strings.Split(rangeStr, ",")) && (forall j int :: 0 <= j && j < len(result0) ==> result0[j] == parseSingleConstraint(strings.TrimSpace(strings.Split(rangeStr, ",")[j])).0[0])   [C02]
+
+//@ func parseRange
+//@   ensures comma: strings.Contains(rangeStr, ",") ==> result0 == parseCommaSeparatedConstraints(rangeStr).0 && (result1 == nil) == (parseCommaSeparatedConstraints(rangeStr).1 == nil)   [C02]
+//@   ensures space: !strings.Contains(rangeStr, ",") && strings.Contains(rangeStr, " ") ==> result0 == parseSpaceSeparatedConstraints(rangeStr).0 && (result1 == nil) == (parseSpaceSeparatedConstraints(rangeStr).1 == nil)   [C02]
+//@   ensures single: !strings.Contains(rangeStr, ",") && !strings.Contains(rangeStr, " ") ==> result0 == parseSingleConstraint(rangeStr).0 && (result1 == nil) == (parseSingleConstraint(rangeStr).1 == nil)   [C02]
+
+// lifting to whole ranges: an AND-range of comparator constraints treats versions that compare equal alike (the two
+// quantified sides are what Contains returns for v1 and v2, by its `and` clause)
+//@ lemma c20-range-equal [C20] uses c20-equal: forall sr *VersionRange, v1, v2 *Version :: sr != nil && v1 != nil && v2 != nil && wfRange(sr) && (forall i int :: 0 <= i && i < len(sr.constraints) ==> sr.constraints[i].version != nil && (sr.constraints[i].operator == "=" || sr.constraints[i].operator == "!=" || sr.constraints[i].operator == "<" || sr.constraints[i].operator == "<=" || sr.constraints[i].operator == ">" || sr.constraints[i].operator == ">=")) && v1.Compare(v2) == 0 ==> ((forall i int :: 0 <= i && i < len(sr.constraints) ==> sr.constraints[i].matches(v1)) == (forall i int :: 0 <= i && i < len(sr.constraints) ==> sr.constraints[i].matches(v2)))
+// ... and the set a range without != accepts is convex in the order
+//@ lemma c20-range-convex [C20] uses c20-convex: forall sr *VersionRange, a, b, d *Version :: sr != nil && a != nil && b != nil && d != nil && wfRange(sr) && (forall i int :: 0 <= i && i < len(sr.constraints) ==> sr.constraints[i].version != nil && (sr.constraints[i].operator == "=" || sr.constraints[i].operator == "!=" || sr.constraints[i].operator == "<" || sr.constraints[i].operator == "<=" || sr.constraints[i].operator == ">" || sr.constraints[i].operator == ">=") && sr.constraints[i].operator != "!=") && a.Compare(b) <= 0 && b.Compare(d) <= 0 && (forall i int :: 0 <= i && i < len(sr.constraints) ==> sr.constraints[i].matches(a)) && (forall i int :: 0 <= i && i < len(sr.constraints) ==> sr.constraints[i].matches(d)) ==> (forall i int :: 0 <= i && i < len(sr.constraints) ==> sr.constraints[i].matches(b))
